@@ -184,3 +184,52 @@ Theorem si_chunk_dtype_mismatch :
   compute_chunk K kzero kadd kmul phi post c st (d, ch) = Err EValue.
 Proof. exact compute_chunk_rejects_other_dtype. Qed.
 Print Assumptions si_chunk_dtype_mismatch.
+
+(* ======================= tie to the source ======================= *)
+(* the model's _compute_preamble / _handle_skip / _fill_y_buf block arithmetic / one DFT
+   iteration / compute_chunk header and tail / finalize are, expression by expression, what
+   gen/si.py extracts from ShortIntegrationFrameComputer (compute.py) on this run
+   (coq/gen/SiK.v); the loops are the model's own, applied to these steps *)
+From Verif Require Import C03.Tie.
+Theorem si_model_is_source_preamble :
+  forall (K : Type) (kzero : K) (c : cfg K) (st : state K) (d : dtype),
+  preamble_src K kzero c st d = preamble K kzero c st d.
+Proof. exact preamble_tie. Qed.
+Print Assumptions si_model_is_source_preamble.
+Theorem si_model_is_source_handle_skip :
+  forall (K : Type) (c : cfg K) (xb : list K) (xrem sk : Z) (ch : list K),
+  handle_skip_src K c xb xrem sk ch = handle_skip K c xb xrem sk ch.
+Proof. exact handle_skip_tie. Qed.
+Print Assumptions si_model_is_source_handle_skip.
+Theorem si_model_is_source_fill_block :
+  forall (K : Type) (kzero : K) (kadd kmul : K -> K -> K) (phi : K -> K) (c : cfg K)
+         (yv cur_buf taps : list K) (y_keep block_end yrem : Z) (blk : K * K) (yb : list (K * K)),
+  block_update_src K kzero kadd kmul c yv y_keep block_end blk = block_update K kzero kadd kmul c yv y_keep block_end blk /\
+  fill_one_src K kzero kadd kmul phi c cur_buf y_keep yrem taps yb = fill_one K kzero kadd kmul phi c cur_buf y_keep yrem taps yb.
+Proof. exact fill_block_tie. Qed.
+Print Assumptions si_model_is_source_fill_block.
+Theorem si_model_is_source_dft_iteration :
+  forall (K : Type) (kzero : K) (kadd kmul : K -> K -> K) (phi post : K -> K) (c : cfg K)
+         (xrem nf : Z) (ch : list K) (i : Z) (ls : lstate K),
+  dft_iter_src K kzero kadd kmul phi post c xrem nf ch i ls = dft_iter K kzero kadd kmul phi post c xrem nf ch i ls.
+Proof. exact dft_iter_tie. Qed.
+Print Assumptions si_model_is_source_dft_iteration.
+Theorem si_model_is_source_compute_chunk :
+  forall (K : Type) (kzero : K) (kadd kmul : K -> K -> K) (phi post : K -> K) (c : cfg K) (st : state K) (ch : list K),
+  chunk_body_src K kzero kadd kmul phi post c st ch = chunk_body K kzero kadd kmul phi post c st ch.
+Proof. exact chunk_body_tie. Qed.
+Print Assumptions si_model_is_source_compute_chunk.
+Theorem si_model_is_source_finalize :
+  forall (K : Type) (kzero : K) (kadd kmul : K -> K -> K) (phi post : K -> K) (c : cfg K) (st : state K),
+  finalize_src K kzero kadd kmul phi post c st = finalize K kzero kadd kmul phi post c st.
+Proof. exact finalize_tie. Qed.
+Print Assumptions si_model_is_source_finalize.
+Theorem si_model_is_source_geometry :
+  forall (sup : list (Z * Z)) (D M S : Z),
+  geom_causal_src sup = geom_support false sup /\
+  snd (geom_support true sup) = gen.SiK.g_siinit_settr__0 (fst (geom_support true sup)) /\
+  gen.SiK.g_siinit_setFL__0 M S = M + S - 1 /\
+  geom_nblk D M S = (gen.SiK.g_siinit_y_blocks_0 D M S + S - 1) / S /\
+  (forall dmin, geom_dft M S dmin true = gen.SiK.g_siinit_setD__0 (geom_dft M S dmin false)).
+Proof. exact geometry_tie. Qed.
+Print Assumptions si_model_is_source_geometry.
